@@ -2,6 +2,7 @@ import ProductMD.Driver.Proto
 import ProductMD.Model.IniText
 import ProductMD.Model.TreeInfo
 import ProductMD.Model.DiscInfo
+import ProductMD.Driver.OpsIniParse
 /-!
 driver ops: INI documents/text, treeinfo, discinfo.
 
@@ -123,8 +124,11 @@ def dumpsJson (t : TreeInfo) (mv : Option Str) : Json :=
   exceptJson (fun d => Json.mkObj [("doc", jdoc d), ("text", jstr (IniText.render d)),
                                    ("representable", Json.bool (IniText.Representable d))]) (serialize t mv)
 
+/-- the reader model with CPython's `str.isspace` (generated ranges) -/
+def parseText (text : Str) : Except Err Ini := IniParse.parse OpsIniParse.isSpace text
+
 def loadsText (fo : FloatOracle) (text : Str) : Except Err TreeInfo :=
-  (IniText.parse text).bind (deserialize fo)
+  (parseText text).bind (deserialize fo)
 
 def discsOf (j : Json) : DI.Discs :=
   match j with
@@ -142,8 +146,7 @@ def jdisc (x : DI.DiscInfo) : Json :=
                 | .nums ns => Json.arr (ns.map jint).toArray)]
 
 def ops : List (String × (Json → Json)) :=
-  [("ini_render", fun a => jstr (IniText.render (docOf (get a "doc")))),
-   ("ini_parse", fun a => exceptJson jdoc (IniText.parse (getStrD a "text"))),
+  [("ini_render_sorted", fun a => jstr (IniText.render (docOf (get a "doc")))),
    ("ini_canon", fun a => jdoc (IniText.canon (docOf (get a "doc")))),
    ("ini_representable", fun a => Json.bool (IniText.Representable (docOf (get a "doc")))),
    ("ti_dumps", fun a => dumpsJson (treeInfoOf (get a "spec")) (mainVariantOf a)),
@@ -162,7 +165,7 @@ def ops : List (String × (Json → Json)) :=
         let back := loadsText fo text
         Json.mkObj [("dump", jok (jstr text)), ("doc", jdoc d),
                     ("representable", Json.bool (IniText.Representable d)),
-                    ("parse_is_canon", Json.bool (match IniText.parse text with
+                    ("parse_is_canon", Json.bool (match parseText text with
                         | .ok d' => d' == IniText.canon (IniText.dropComments d)
                         | .error _ => false)),
                     ("load", exceptJson jtreeInfo back),
